@@ -96,26 +96,48 @@ def gen_units(rng, hist=None, maxlen=24, malformed=False):
 
 
 INTS = [0, 1, -1, 42, -7, 9, 10, 99, 100, 2 ** 53, -(2 ** 53), 2 ** 53 - 1, 2 ** 31, 2 ** 31 - 1, -(2 ** 31), 2 ** 32, 10 ** 15, 123456789012,
-        1000000, -1000000, 2 ** 52 + 1]
+        1000000, -1000000, 2 ** 52 + 1, 2 ** 32 - 1, -(2 ** 31) - 1, -(2 ** 32), 2 ** 53 - 2 ** 31]
 SMALL_INTS = [0, 1, -1, 42, -7, 2 ** 31 - 1, -(2 ** 31), 99999]
+# the numeric QVariant types (token letter -> C++ type, range inside the property's |n| <= 2^53, boundary values);
+# JsonDefs.num_in_range is the same table on the Coq side
+NUM_TYPES = {
+    'I': ('int', -(2 ** 31), 2 ** 31 - 1, SMALL_INTS + [2 ** 31 - 2, -(2 ** 31) + 1, 65536, -65536]),
+    'u': ('uint', 0, 2 ** 32 - 1, [0, 1, 42, 2 ** 31 - 1, 2 ** 31, 2 ** 31 + 1, 2 ** 32 - 1, 2 ** 32 - 2, 3000000000, 65536]),
+    'i': ('qlonglong', -(2 ** 53), 2 ** 53, INTS),
+    'U': ('qulonglong', 0, 2 ** 53, [0, 1, 42, 2 ** 31 - 1, 2 ** 31, 2 ** 32 - 1, 2 ** 32, 2 ** 53, 2 ** 53 - 1, 10 ** 15, 2 ** 52 + 1]),
+    'd': ('double', -(2 ** 53), 2 ** 53, INTS),
+    'F': ('float', -(2 ** 24), 2 ** 24, [0, 1, -1, 42, -7, 2 ** 24, -(2 ** 24), 2 ** 24 - 1, 65536, 1000000, -99999]),
+}
+NUM_TOKENS = ''.join(NUM_TYPES)          # 'IuiUdF'
+INT_TYPED = 'IuiU'                       # QVariant::toString() gives the plain digits (double / float: shortest 'g' form)
 MAPKEYS = ['k', 'a', 'z', 'K', '\u00e9', 'k2', '', '"q', 'k\n', '\uffff', '\ue000', '\U0001F600', 'message', 'type']
 
 
+def gen_number(rng, hist, types=NUM_TOKENS):
+    """('<type letter>', integer): a value of one numeric QVariant type, boundary values of the type preferred"""
+    t = rng.choice(types)
+    name, lo, hi, pool = NUM_TYPES[t]
+    z = rng.choice(pool) if rng.random() < 0.7 else rng.randint(lo, hi)
+    if hist is not None:
+        hist['num_' + name] = hist.get('num_' + name, 0) + 1
+        for label, b in (('INT_MAX', 2 ** 31 - 1), ('INT_MAX+1', 2 ** 31), ('UINT_MAX', 2 ** 32 - 1), ('2^53', 2 ** 53), ('-2^53', -(2 ** 53)),
+                         ('INT_MIN', -(2 ** 31))):
+            if z == b:
+                hist['num_at_' + label] = hist.get('num_at_' + label, 0) + 1
+        if z >= 2 ** 31 and t in 'uU':
+            hist['num_unsigned_above_INT_MAX'] = hist.get('num_unsigned_above_INT_MAX', 0) + 1
+    return (t, z)
+
+
 def gen_value(rng, hist, depth=0, malformed=False):
-    """value tree: ('n',) ('b',bool) ('i'|'I'|'d',int) ('s',units) ('a',[v]) ('o',[(units,v)])"""
+    """value tree: ('n',) ('b',bool) (<one of NUM_TOKENS>,int) ('s',units) ('a',[v]) ('o',[(units,v)])"""
     r = rng.random()
     if r < 0.08:
         k = ('n',)
     elif r < 0.18:
         k = ('b', rng.random() < 0.5)
-    elif r < 0.40:
-        q = rng.random()
-        if q < 0.6:
-            k = ('i', rng.choice(INTS) if rng.random() < 0.7 else rng.randint(-2 ** 53, 2 ** 53))
-        elif q < 0.8:
-            k = ('I', rng.choice(SMALL_INTS))
-        else:
-            k = ('d', rng.choice(INTS) if rng.random() < 0.7 else rng.randint(-2 ** 53, 2 ** 53))
+    elif r < 0.42:
+        k = gen_number(rng, hist)
     elif r < 0.74 or depth > 2:
         k = ('s', gen_units(rng, None, 12, malformed and rng.random() < 0.5))
     elif r < 0.87:
@@ -130,13 +152,69 @@ def gen_value(rng, hist, depth=0, malformed=False):
     return k
 
 
+# ---- category / file / function: printable ASCII, path-like families (nothing may tidy, resolve or trim them)
+PATHS = ['src//main.cpp', './main.cpp', 'build/gen/../moc_x.cpp', 'gen/', '../../x.cpp', '/', '//', '.', '..', './', '../', 'a/./b.cpp',
+         'a/b/../../c.cpp', '/a//b///c.cpp', 'C:\\src\\a.cpp', 'C:\\src\\..\\a.cpp', '\\\\host\\share\\f.cpp', 'dir with space/f x.cpp', ' ',
+         ' lead.cpp', 'trail.cpp ', 'a/b/', '/usr/include/../include/./qt5//QtCore/qglobal.h', '~/.x.cpp', 'file:///tmp/x.cpp',
+         'qrc:/main.qml', ':/res/x.qml', 'a\\b/c', '%20.cpp', 'x.cpp?y#z', '../../src/./net/client.cpp', '.hidden', '...', 'a/.../b',
+         '/.', '/..', '/../x.cpp', 'a//', 'a/.', 'a/..', '\\', 'a\\', 'C:/', 'c:/x/../y.cpp', 'A/B.CPP', 'x.cpp/', '  ', 'a/ /b', '/a/b.cpp/.']
+SEGMENTS = ['', '.', '..', 'a', 'src', 'x y', 'b.cpp', ' ', 'gen', '...', 'C:', '~', 'moc_x.cpp']
+SEPS = ['/', '/', '/', '//', '\\', '/./', '/../']
+
+
+def path_shapes(s):
+    """which normalisation triggers a printable-ASCII string holds (for the coverage histogram)"""
+    out = []
+    if '//' in s:
+        out.append('double_slash')
+    segs = s.replace('\\', '/').split('/')
+    if '.' in segs and len(segs) > 1:
+        out.append('dot_segment')
+    if '..' in segs and len(segs) > 1:
+        out.append('dotdot_segment')
+    if any(a not in ('', '.', '..') and b == '..' for a, b in zip(segs, segs[1:])):
+        out.append('dir_dotdot_pair')
+    if len(s) > 1 and s.endswith('/'):
+        out.append('trailing_slash')
+    if s in ('/', '\\'):
+        out.append('lone_separator')
+    if '\\' in s:
+        out.append('backslash')
+    if ' ' in s:
+        out.append('space')
+    if s != s.strip():
+        out.append('outer_space')
+    return out
+
+
+def gen_ascii(rng, hist, base, what):
+    """a printable-ASCII C string for category / file / function: the plain pool `base`, the path-like
+    families, composed paths, or random printable ASCII"""
+    r = rng.random()
+    if r < 0.45:
+        s = rng.choice(base)
+    elif r < 0.65:
+        s = rng.choice(PATHS)
+    elif r < 0.85:
+        n = rng.choice([1, 2, 2, 3, 4, 6])
+        s = ('/' if rng.random() < 0.3 else '')
+        for i in range(n):
+            s += rng.choice(SEGMENTS) + (rng.choice(SEPS) if i + 1 < n or rng.random() < 0.3 else '')
+    else:
+        s = ''.join(chr(rng.randint(0x20, 0x7E)) for _ in range(rng.choice([1, 2, 3, 5, 8, 13])))
+    if hist is not None:
+        for sh in path_shapes(s):
+            hist['%s_%s' % (what, sh)] = hist.get('%s_%s' % (what, sh), 0) + 1
+    return s
+
+
 def value_tokens(v):
     t = v[0]
     if t == 'n':
         return ['n']
     if t == 'b':
         return ['t' if v[1] else 'f']
-    if t in 'iId':
+    if t in NUM_TOKENS:
         return ['%s%d' % (t, v[1])]
     if t == 's':
         return ['s' + (hx(v[1]) if v[1] else '')]
@@ -154,7 +232,7 @@ def value_py(v):
         return None
     if t == 'b':
         return v[1]
-    if t in 'iId':
+    if t in NUM_TOKENS:
         return v[1]
     if t == 's':
         return pystr(v[1])
